@@ -303,14 +303,29 @@ def run(facts, tr, rep):
         if im.get("trait", "").endswith("eviction::EvictionStore"):
             impls.append(im)
     rep.floor("C10.eviction-store-impls", len(impls), 3)
+    # the stores are judged on the fully inlined bodies of their trait methods (private helpers such as `is_full()`,
+    # `overwrite(..)`, methods of a private struct that groups map and capacity do not matter); containers are the map / queue
+    # fields of the store, directly or inside such a private struct
+    facts_s, tr_s = facts, tr
+    facts, tr = facts.inl, tr.inl
     for im in impls:
         st = facts.crates[CRATE].types[im["self_ty"]]
         adt_def = st.get("def")
         short = adt_def.split("::")[-1]
         items = {it["name"]: facts.bodies.get(it["def"]) for it in im["items"]}
         adt = facts.adt(adt_def)
-        containers = [f["name"] for f in adt["variants"][0]["fields"]
-                      if any(t in facts.crates[CRATE].types[f["ty"]]["s"] for t in ("HashMap", "VecDeque", "LruCache", "BTreeMap", "Vec<"))]
+
+        def _containers(a_, depth=0):
+            out = []
+            for f in a_["variants"][0]["fields"]:
+                ts = facts.crates[CRATE].types[f["ty"]]["s"]
+                fd = facts.crates[CRATE].types[f["ty"]].get("def")
+                if fd and fd.startswith(CRATE) and facts.adt(fd) is not None and len(facts.adt(fd)["variants"]) == 1 and depth < 2:
+                    out += _containers(facts.adt(fd), depth + 1)
+                elif any(t in ts for t in ("HashMap", "VecDeque", "LruCache", "BTreeMap", "Vec<")):
+                    out.append(f["name"])
+            return out
+        containers = _containers(adt)
         # COUNTER: per-key use counters (a map into an integer) order the victims; a counter narrower than 64 bits can
         # wrap or overflow within a reachable number of hits, which turns the most used key into the victim
         import re as _re
@@ -406,7 +421,23 @@ def run(facts, tr, rep):
                         cap_edges[-1] = None
             cap_edges = [e for e in cap_edges if e]
             rm_blocks = [x.bb for (x, ff) in removes if ff == primary]
-            r = gi.reach([0], kinds=(N,), avoid_nodes=rm_blocks, avoid_edges=cap_edges)
+            # "no victim" (the `None` answer of the queue / of the search over the use counters) cannot happen at capacity >= 1
+            # while the bookkeeping containers mirror the primary map (COHERENT): those edges are not ways around the eviction
+            no_victim = []
+            for bb in range(gi.n):
+                sw = gi.switch(bb)
+                if sw is None or sw.kind != "enum" or "None" not in sw.variants or not gi.live(bb):
+                    continue
+                nd = tr.expand(tr.place(ins, sw.place, sw.defloc), upvars=True)
+
+                def _on_secondary(x):
+                    if not x.args:
+                        return False
+                    rc = peel(tr.expand(tr.operand(x.g.b, x.args[0], x.loc), upvars=True))
+                    return rc[0] == "field" and rc[2] in containers and rc[2] != primary
+                if calls_in(tr, nd, _on_secondary):
+                    no_victim.append((bb, sw.variants["None"]))
+            r = gi.reach([0], kinds=(N,), avoid_nodes=rm_blocks, avoid_edges=cap_edges + no_victim)
             ok = bool(cap_edges) and c.bb not in r
             rep.ob("C10.CAPACITY", "%s|%s|new-key-insert#%d" % (CRATE, short, nnew - 1), ok, c.where(),
                    "a new key is inserted into %s only below capacity (len >= capacity failed) or after an eviction" % short if ok else
@@ -452,6 +483,7 @@ def run(facts, tr, rep):
                        "%s::%s removes from all of its containers (%s)" % (short, nm, sorted(containers)) if ok else
                        "%s::%s removes from %s but not from %s: a stale key left behind is later evicted 'successfully' without freeing "
                        "an entry, so the cache exceeds its capacity / evicts the wrong victim" % (short, nm, sorted(touched), sorted(set(containers) - touched)))
+    facts, tr = facts_s, tr_s
     # ---------------------------------------------------------------- SHARE
     st = sb.types[sb.impl["self_ty"]]
     n = check_share(facts, tr, rep, "C10.SHARE", st["def"])
